@@ -72,7 +72,10 @@ def run(ctx):
     ctx.cov["behaviours_replayed"] += 2 * len(hists)
     # XF + V: real histories, crash images, validated by the trace specification
     seen = {}
-    for cfg, tcfg in (("g2", "store/FreezerTraceG2"), ("mixed", "store/FreezerTraceMixed")):
+    cfgs = [("g2", "store/FreezerTraceG2"), ("mixed", "store/FreezerTraceMixed")]
+    if ctx.thorough:
+        cfgs.append(("g3", "store/FreezerTraceG3"))      # three tables, two tail groups, one table not prunable
+    for cfg, tcfg in cfgs:
         tp = os.path.join(ctx.scratch, "trace-%s.ndjson" % cfg)
         args = ["-mode", "xf", "-cfg", cfg, "-unsynced-tail", "-scripts", hp, "-trace", tp, "-dir", os.path.join(ctx.scratch, "fz-" + cfg),
                 "-n", ctx.pick(2, 12), "-steps", ctx.pick(9, 14), "-images", ctx.pick(5, 14)]
